@@ -249,7 +249,7 @@ def frames_beamline(chk):
             n, w, al = frame_run(chk, f'wavelength:{wdt}', 'conversion.beamline', fname, lambda: fn(**C04.inputs(wdt)), base=C04._base(a))
             w_total += w
     sites += inplace_sites(mod._drop_due_to_gravity)
-    chk.decided('conversion.beamline/coverage: in-place sites are exercised', w_total >= sites and sites >= 10, detail=f'{sites} in-place/out= sites in the source, {w_total} writes executed')
+    chk.decided('conversion.beamline/coverage: in-place sites are exercised', w_total >= sites, detail=f'{sites} in-place/out= sites in the source, {w_total} writes executed')
 
 
 def frames_models(chk):
@@ -394,8 +394,15 @@ def freshness_native(chk):
     chk.function('conversion.graph.tof', 'elastic / kinematic / elastic_* / *_inelastic')
     chk.function('conversion.graph.beamline', 'beamline / incident_beam / scattered_beam / two_theta / L1 / L2 / Ltotal')
     chk.function('core.conversions', 'conversion_graph')
-    table_before = {k: dict(v) for k, v in gt._GRAPH_DYNAMICS_BY_ORIGIN.items()}
-    bl_before = (dict(gb._SCATTER_GRAPH_BEAMLINE), dict(gb._NO_SCATTER_GRAPH_BEAMLINE))
+    # module-level tables behind the factories, if the modules have any (an implementation detail: whatever dict-valued globals exist)
+    def tables():
+        out = {}
+        for m_ in (gt, gb):
+            for nm_, v_ in vars(m_).items():
+                if isinstance(v_, dict) and not nm_.startswith('__'):
+                    out[(m_.__name__, nm_)] = {k_: (dict(x_) if isinstance(x_, dict) else x_) for k_, x_ in v_.items()}
+        return out
+    table_before = tables()
     calls = []
     for start in ('tof', 'wavelength', 'energy', 'Q'):
         for f in ('elastic', 'kinematic', 'elastic_dspacing', 'elastic_energy', 'elastic_Q', 'elastic_Q_vec', 'elastic_hkl', 'elastic_wavelength'):
@@ -426,8 +433,7 @@ def freshness_native(chk):
         if dict(f()) != snapshot:
             bad.append(label + ' (third call)')
     record(f'graph factories hand out fresh dicts; results independent of mutation of earlier results [{len(calls)} factory calls x 3]', not bad, str(bad[:5]))
-    record('graph module tables unchanged', {k: dict(v) for k, v in gt._GRAPH_DYNAMICS_BY_ORIGIN.items()} == table_before
-           and (dict(gb._SCATTER_GRAPH_BEAMLINE), dict(gb._NO_SCATTER_GRAPH_BEAMLINE)) == bl_before)
+    record('graph module tables unchanged', tables() == table_before, detail=f'{len(table_before)} module-level tables')
     # models
     pm = real_module('peaks.model')
     chk.function('peaks.model', 'Model.with_prefix / param_names / __add__ / CompositeModel')
